@@ -33,6 +33,8 @@ MF = fp.MPFixedContext(-3, fp.RM.RNA)
 F32P = fp.FP32.with_params(rm=fp.RM.RTP)
 K2 = 2
 K3 = 3
+ctx = fp.IEEEContext(5, 16)
+ctx1 = fp.MPFloatContext(6)
 '''
 
 CLOSURES = '''
@@ -715,6 +717,13 @@ class Gen:
             text, exact = rng.choice([f'fp.MPFloatContext({n})', f'fp.MPFloatContext({n} + 1)', f'fp.MPFixedContext(-{n})',
                                       f'fp.IEEEContext(4, {n} + 6)']), False
             self.features.add('runtime_ctx')
+        elif rng.random() < self.p.get('local_ctx_param_prob', 0) and not self.exact_only:
+            # a constructor argument held in a local variable that is a compile-time constant (and is rebound later)
+            nv = self.fresh('n')
+            self.emit(ind, f'{nv} = {rng.choice([3, 4, 5, 6])}')
+            text, exact = rng.choice([f'fp.MPFloatContext({nv})', f'fp.IEEEContext({nv}, 16)', f'fp.MPFixedContext(-{nv})']), False
+            self.features.add('local_ctx_param')
+            self._rebind_after_with = nv
         elif rng.random() < self.p['computed_ctx_prob'] and not self.exact_only:
             # constructor arguments computed at run time (must be evaluated exactly)
             pexpr = rng.choice(['2 + 1', '1 + 1 + 1', '8 / 2', '3 * 2 - 1', '7 - 2', '9 + 2', '2.5 * 2 + 6', '26 / 2', '3 * 3'])
@@ -735,6 +744,15 @@ class Gen:
         new = _Scope(sc)
         for v, t in inner.vars.items():
             new.vars[v] = t
+        nv = getattr(self, '_rebind_after_with', None)
+        if nv is not None and text.find(f'({nv}') >= 0:
+            self._rebind_after_with = None
+            if rng.random() < 0.6:
+                self.emit(ind, f'{nv} = {rng.choice([2, 7, 8])}')
+                self.emit(ind, f'with fp.MPFloatContext({nv}):')
+                v2 = self.fresh('v')
+                self.emit(ind + 1, f'{v2} = {self.real(new, 2)}')
+                new.vars[v2] = 'R'
         return new
 
     def ret_expr(self, sc):
